@@ -230,6 +230,11 @@ class MemoryWorkflowStore(AbstractWorkflowStore):
                     continue
 
             for event in batch:
+                if event.sequence <= after_sequence:
+                    # Stored after we subscribed, but not above the requested cursor
+                    # (the cursor was at or beyond the end of the log).
+                    cursor += 1
+                    continue
                 yield event
                 cursor += 1
                 if self._is_terminal_event(event):
